@@ -174,7 +174,7 @@ func mutationsOf(msg proto.Message) []mutation {
 					add("last defined enum value", func(pm protoreflect.Message) { pm.Set(fd, protoreflect.ValueOfEnum(vals.Get(vals.Len()-1).Number())) })
 				}
 			case fd.Kind() == protoreflect.StringKind:
-				for _, sv := range []string{"", "NOPE", "not-a-prefix", "300.1.1.1/8", "10.0.0.0/33", "10.0.0.0", "2001:db8::/129", "::ffff:1.2.3.4/24", strings.Repeat("x", 300)} {
+				for _, sv := range []string{"", "NOPE", "not-a-prefix", "300.1.1.1/8", "10.0.0.0/33", "10.0.0.0", "2001:db8::/129", "::ffff:1.2.3.4/24", strings.Repeat("x", 300), "\xff\xfe\x80"} {
 					sv := sv
 					add(fmt.Sprintf("string %q", short(sv)), func(pm protoreflect.Message) { pm.Set(fd, protoreflect.ValueOfString(sv)) })
 				}
